@@ -231,6 +231,8 @@ type Gen struct {
 	timeoutS         int
 	dry              int
 	ws               *writeSet
+	assumingFresh    bool      // evaluating the ensures of an assumed contract: fresh(x) there introduces x as a new allocation
+	pendingCalleeWS  *writeSet // write set of the contracted callee being applied (dry run), havocked before its ensures are assumed
 	seenCall         map[*Clause]bool
 	siteOrds         map[*Clause]map[ssa.Instruction]int
 	inlineExt        map[string]bool
